@@ -206,7 +206,7 @@ def jobs(tier):
     except ImportError:
         pass
     # (lead) the C fast-path separable-convolution fetcher against the documented tap window (one-hot kernels)
-    for cw, ch in (((1, 3),) if tier == "quick" else ((1, 3), (2, 2), (3, 1), (2, 3))):
+    for cw, ch in (((1, 3), (2, 3)) if tier == "quick" else ((1, 3), (2, 3), (2, 2), (3, 1))):   # 1x3: window offset per axis (seed C08-1); 2x3: even width, the lost epsilon (seed C02-3)
         js.append(Job("fastpath.sepconv.window.%dx%d" % (cw, ch), "C08/fp_sepconv.c", defines={"VC_CW": cw, "VC_CH": ch}, unwind=8,
                       cbmc_flags=["--no-undefined-shift-check"], kind="bounded",
                       bound="kernel %dx%d, 0 subsample bits, one-hot weights; 4x4 source; scanline width 1" % (cw, ch),
@@ -216,6 +216,13 @@ def jobs(tier):
                       assumptions=["fastpath.sepconv: --no-undefined-shift-check: (vx >> s) << s with negative vx is a left shift of a negative value "
                                    "(same pattern as the known finding C08 finding.sepconv.negative_shift in pixman-bits-image.c)",
                                    "fastpath.sepconv: pixman_transform_point_3d replaced by a stub returning the harness-chosen position"]))
+    # (lead) pad_repeat_get_scanline_bounds: left padding / image part / right padding of a scaled NONE/PAD scanline
+    for sw, w, u in (((15, 5, 12),) if tier == "quick" else ((15, 5, 12), (15, 6, 8), (15, 6, 14))):
+        js.append(Job("pad_bounds.sw%d.w%d.u%d" % (sw, w, u), "C08/padbounds.c", defines={"VC_SWBITS": sw, "VC_WBITS": w, "VC_UBITS": u},
+                      kind="bounded", bound="source width < 2^%d, scanline width < 2^%d, 0 < unit_x < 2^%d, every vx in int32 (the 64/32-bit "
+                      "division at full operand width does not finish)" % (sw, w, u), functions=["pad_repeat_get_scanline_bounds"],
+                      domain="ghost pixel i: left padding iff vx + i*unit_x < 0, right padding iff >= width*65536, parts consecutive and adding up",
+                      timeout=1800, min_props=3))
     # (lead) wide pipeline: a pixel whose (4-word) mask pixel is non-zero must be fetched — found the defect repaired by the
     # fix: commit "wide fetchers: test the whole mask pixel"
     for it, fn in ((0, "bits_image_fetch_affine_no_alpha_float"), (1, "bits_image_fetch_general_float")):
